@@ -881,3 +881,187 @@ func retResults(ret *ssa.Return) []ssa.Value {
 }
 
 func sprintInt(n int) string { return fmt.Sprintf("%d", n) }
+
+// ---------------------------------------------------------------------------
+// Loops
+
+type loopInfo struct {
+	header *ssa.BasicBlock
+	latch  []*ssa.BasicBlock // sources of back edges
+	body   map[*ssa.BasicBlock]bool
+}
+
+// naturalLoops finds the natural loops of fn (one per header).
+func naturalLoops(fn *ssa.Function) []*loopInfo {
+	byHeader := map[*ssa.BasicBlock]*loopInfo{}
+
+	var order []*ssa.BasicBlock
+
+	for _, b := range fn.Blocks {
+		for _, s := range b.Succs {
+			if s.Dominates(b) {
+				li := byHeader[s]
+				if li == nil {
+					li = &loopInfo{header: s, body: map[*ssa.BasicBlock]bool{s: true}}
+					byHeader[s] = li
+					order = append(order, s)
+				}
+
+				li.latch = append(li.latch, b)
+
+				// body: blocks that reach the latch without passing the header
+				work := []*ssa.BasicBlock{b}
+				for len(work) > 0 {
+					x := work[len(work)-1]
+					work = work[:len(work)-1]
+
+					if li.body[x] {
+						continue
+					}
+
+					li.body[x] = true
+					work = append(work, x.Preds...)
+				}
+			}
+		}
+	}
+
+	var out []*loopInfo
+	for _, h := range order {
+		out = append(out, byHeader[h])
+	}
+
+	return out
+}
+
+// iterationAvoiding searches, inside one loop, for a path from the header
+// around to the header again (one full iteration) that executes no instruction
+// satisfying isBarrier and crosses no cut edge. It returns the latch block of
+// such a path, or nil when every iteration passes a barrier (or leaves the
+// loop).  The search is path-sensitive for nil/non-nil and true/false tests of
+// one and the same SSA value: a path that would take contradictory branches on
+// the same value is not followed.
+func iterationAvoiding(li *loopInfo, cuts map[Edge]bool, isBarrier func(ssa.Instruction) bool) *ssa.BasicBlock {
+	blocked := func(b *ssa.BasicBlock) bool {
+		for _, in := range b.Instrs {
+			if isBarrier(in) {
+				return true
+			}
+		}
+
+		return false
+	}
+
+	if blocked(li.header) {
+		return nil
+	}
+
+	type state struct {
+		b     *ssa.BasicBlock
+		facts string
+	}
+
+	seen := map[state]bool{}
+
+	var found *ssa.BasicBlock
+
+	var walk func(b *ssa.BasicBlock, facts map[ssa.Value]string, depth int)
+
+	sig := func(f map[ssa.Value]string) string {
+		parts := make([]string, 0, len(f))
+		for v, k := range f {
+			parts = append(parts, v.Name()+"="+k)
+		}
+
+		sort.Strings(parts)
+
+		return strings.Join(parts, ",")
+	}
+
+	step := func(from *ssa.BasicBlock, idx int, facts map[ssa.Value]string) (map[ssa.Value]string, bool) {
+		ifi, ok := from.Instrs[len(from.Instrs)-1].(*ssa.If)
+		if !ok {
+			return facts, true
+		}
+
+		nf := facts
+
+		for _, f := range withCellFacts(edgeFacts(ifi.Cond, idx == 0)) {
+			var k string
+
+			switch f.Kind {
+			case "nil", "nonnil", "true", "false":
+				k = f.Kind
+			default:
+				continue
+			}
+
+			opp := map[string]string{"nil": "nonnil", "nonnil": "nil", "true": "false", "false": "true"}[k]
+			if facts[f.V] == opp {
+				return nil, false // contradictory with an earlier branch on the same value
+			}
+
+			if facts[f.V] == "" {
+				if len(nf) > 6 {
+					continue // bound the state space
+				}
+
+				cp := map[ssa.Value]string{}
+				for a, b := range nf {
+					cp[a] = b
+				}
+
+				cp[f.V] = k
+				nf = cp
+			}
+		}
+
+		return nf, true
+	}
+
+	walk = func(b *ssa.BasicBlock, facts map[ssa.Value]string, depth int) {
+		if found != nil || depth > 400 {
+			return
+		}
+
+		st := state{b, sig(facts)}
+		if seen[st] {
+			return
+		}
+
+		seen[st] = true
+
+		if b != li.header && blocked(b) {
+			return
+		}
+
+		for i, s := range b.Succs {
+			if cuts[Edge{b, i}] {
+				continue
+			}
+
+			nf, ok := step(b, i, facts)
+			if !ok {
+				continue
+			}
+
+			if s == li.header {
+				if b != li.header {
+					found = b
+
+					return
+				}
+
+				continue
+			}
+
+			if li.body[s] {
+				walk(s, nf, depth+1)
+			}
+		}
+	}
+
+	walk(li.header, map[ssa.Value]string{}, 0)
+
+	return found
+}
